@@ -351,7 +351,7 @@ def run(root, pid, tier, seed, replay):
     replay_key = None
     if replay:
         rep = json.load(open(replay))
-        if pid not in ('C01', 'C02', 'C19', 'C06', 'C04') and rep.get('stream'):
+        if pid not in ('C01', 'C02', 'C19', 'C06', 'C04', 'C17') and rep.get('stream'):
             tier, seed = rep['stream']['tier'], rep['stream']['seed']
             replay_key = rep.get('key')
             replay = None
